@@ -276,3 +276,48 @@ Example series_example :
          [(8, [CNewLabel; CBind 0; CEmbed [1; 2]]); (4, [CEmbed [7]])] =
   [trace (replay (run (init_state 8) [CNewLabel; CBind 0; CEmbed [1; 2]])); trace (replay (run (init_state 4) [CEmbed [7]]))].
 Proof. reflexivity. Qed.
+
+(* ================================================================== round 6: unconditional versions (no `supported` hypothesis) *)
+Theorem recycled_builder_serializes_like_fresh_all : forall rs d cs,
+  replay (run (recycled_state rs d) cs) = replay (run (init_state rs) cs) /\
+  trace (replay (run (recycled_state rs d) cs)) = trace (replay (run (init_state rs) cs)).
+Proof. intros. apply recycled_builder_serializes_like_fresh. apply supported_all_list. Qed.
+
+Theorem history_serializes_like_fresh_all : forall h rs cs b0,
+  trace (replay (run (fold_left do_bl (h ++ [BReset rs]) b0) cs)) = trace (replay (run (init_state rs) cs)).
+Proof. intros. apply history_serializes_like_fresh. apply supported_all_list. Qed.
+
+Theorem reattached_builder_equals_fresh_on_holder_all : forall rs nl ns d cs,
+  same (run (reattached_state rs nl ns d) cs) (run (fresh_on_holder rs nl ns) cs) /\
+  run_errors (reattached_state rs nl ns d) cs = run_errors (fresh_on_holder rs nl ns) cs.
+Proof. intros. apply reattached_builder_equals_fresh_on_holder. apply supported_all_list. Qed.
+
+Theorem reattach_history_irrelevant_all : forall h cs b0,
+  let b := fold_left do_bl2 h b0 in
+  same (run (do_bl2 b B2Reattach) cs) (run (fresh_on_holder (regsize b) (nlabels b) (nsections b)) cs) /\
+  run_errors (do_bl2 b B2Reattach) cs = run_errors (fresh_on_holder (regsize b) (nlabels b) (nsections b)) cs.
+Proof. intros. apply reattach_history_irrelevant. apply supported_all_list. Qed.
+
+Theorem recycled_replay_is_grouping_all : forall rs d cs,
+  Forall emitter cs -> all_ok (init_state rs) cs = true ->
+  let b := run (recycled_state rs d) cs in
+  (forall s, project s (trace (replay b)) = project s (trace cs)) /\
+  (forall x, In x (sec_seq (active b)) <-> x = 0 \/ In (ESection x) (trace cs)) /\
+  NoDup (sec_seq (active b)).
+Proof. intros rs d cs. apply recycled_replay_is_grouping. apply supported_all_list. Qed.
+
+Theorem every_program_of_a_series_is_fresh_all : forall ps b,
+  series b ps = map (fun p => trace (replay (run (init_state (fst p)) (snd p)))) ps.
+Proof.
+  intros ps b. apply every_program_of_a_series_is_fresh. apply forallb_forall. intros p _. apply supported_all_list.
+Qed.
+
+(* the errors a recycled builder reports are the errors of a fresh one, command by command, and `all_ok` transfers: the hypothesis
+   "the fresh builder accepts the stream" can equally be stated on the recycled builder *)
+Lemma all_ok_errors : forall cs b, all_ok b cs = forallb (fun e => e =? kOk) (run_errors b cs).
+Proof. induction cs as [|c cs IH]; intros b; [reflexivity|]. cbn [all_ok run_errors forallb]. rewrite IH. reflexivity. Qed.
+
+Theorem all_ok_recycled_iff_fresh : forall rs d cs, all_ok (recycled_state rs d) cs = all_ok (init_state rs) cs.
+Proof.
+  intros rs d cs. rewrite !all_ok_errors. destruct (recycled_builder_equals_fresh_all rs d cs) as [_ E]. rewrite E. reflexivity.
+Qed.
